@@ -480,6 +480,10 @@ func (p *parser) processCond(nodes []node, root *node, ctl []byte, offset int) (
 		err      error
 		pos      = offset
 	)
+	// The condition must open a block.
+	if ctl[len(ctl)-1] != '{' {
+		return nodes, pos, fmt.Errorf("condition without opening bracket '%s' at offset %d", ctl, pos)
+	}
 	// Check complexity of the condition first.
 	if reCondComplex.Match(ctl) {
 		// Check if condition may be handled by the condition helper.
